@@ -49,7 +49,7 @@ def norm(a):
         return ("obj", POOL[a[1]][0], a[1])
     if a[0] == "ref":
         return ("ref", a[1], a[2])
-    if a[0] == "dict":
+    if a[0] in ("dict", "made"):     # "made": the AnonymousBundle an earlier dict argument was turned into
         return ("obj", "anon", a[1])
     return None
 
@@ -68,6 +68,16 @@ class Mirror:
         self.m[q] = c
         return True
 
+    def toarray_call(self, op):
+        kvs = [[p, self.arg_of(c)] for (i, p), c in self.m.items() if i == op[1]]
+        return ["call", op[2], kvs]
+
+    @staticmethod
+    def arg_of(c):
+        if c[0] == "ref":
+            return ["ref", c[1], c[2]]
+        return ["obj", c[2]] if c[2] in POOL else ["made", c[2]]
+
     def apply(self, op):
         t = op[0]
         if t == "call":
@@ -77,6 +87,8 @@ class Mirror:
             return True
         if t == "getref":
             return True
+        if t == "toarray":           # InstanceArray(..)( **template.conns ): a call on the new array
+            return self.apply(self.toarray_call(op))
         q = (op[1], op[2])
         if t in ("set", "connect"):
             return self.write(q, op[3])
@@ -109,8 +121,15 @@ def expand(ops):
 
 
 # ------------------------------------------------------------------------------------------ validity of a final mapping
-def referenced(m):
-    return {(c[1], c[2]) for c in m.values() if c[0] == "ref"}
+# instance kinds: 0 = Instance, n >= 1 = InstanceArray(n), -1 = template Instance that never joins the module (it is
+# consumed by `2 * template`), -2 = the InstanceArray made from the template by the "toarray" operation
+def arr_n(k):
+    return 2 if k == -2 else max(k, 0)
+
+
+def referenced(m, kinds):
+    """Ports referred to by a live connection of an instance of the module (the template is not part of it)."""
+    return {(c[1], c[2]) for q, c in m.items() if c[0] == "ref" and kinds[q[0]] != -1}
 
 
 def conn_valid(m, kinds, q, c):
@@ -119,7 +138,7 @@ def conn_valid(m, kinds, q, c):
         return False
     if c[0] == "ref":
         j, p2 = c[1], c[2]
-        if j == i or kinds[j] > 0 or p2 == ZZ:
+        if j == i or kinds[j] != 0 or p2 == ZZ:
             return False
         return (p2 == BP) == (p == BP)
     k, oid = c[1], c[2]
@@ -127,26 +146,28 @@ def conn_valid(m, kinds, q, c):
         # NOT generated: a no-connect on a bundle-valued port of an InstanceArray. The elaborator broadcasts ONE copied
         # BundleInstance to all elements (shorting them) — a defect of the final-mapping semantics (C01/C05 class, it
         # needs no history), see notes/C04.md.
-        if kinds[i] > 0 and p == BP:
+        if arr_n(kinds[i]) > 0 and p == BP:
             return False
-        return q not in referenced(m)
+        return q not in referenced(m, kinds)
     if p == BP:
         return k in ("bundle", "anon")
     if k in ("bundle", "anon"):
         return False
     w = WIDTH[oid]
-    return w == W or (kinds[i] > 0 and w == W * kinds[i])
+    return w == W or (arr_n(kinds[i]) > 0 and w == W * arr_n(kinds[i]))
 
 
 def invalid_ports(m, kinds):
     bad = []
-    refd = referenced(m)
+    refd = referenced(m, kinds)
     for i in range(len(kinds)):
+        if kinds[i] == -1:
+            continue                     # the template is not part of the design
         for p in range(len(PORTS)):
             q = (i, p)
             c = m.get(q)
             if c is None:
-                if p != ZZ and (q not in refd or kinds[i] > 0):
+                if p != ZZ and (q not in refd or kinds[i] != 0):
                     bad.append(q)
             elif not conn_valid(m, kinds, q, c):
                 bad.append(q)
@@ -161,9 +182,9 @@ def candidates(m, kinds, q, allow_ref=True, allow_nc=True):
         out += [["obj", k] for k in BY_KIND["bundle"] + BY_KIND["anon"]]
     else:
         out += [["obj", k] for k in (0, 1, 10, 11, 12, 20, 21)]
-        if kinds[i] == 2:
+        if arr_n(kinds[i]) == 2:
             out.append(["obj", 2])
-    if allow_nc and q not in referenced(m) and not (kinds[i] > 0 and p == BP):
+    if allow_nc and q not in referenced(m, kinds) and not (arr_n(kinds[i]) > 0 and p == BP):
         out += [["obj", k] for k in BY_KIND["noconn"]]
     if allow_ref:
         for j in range(len(kinds)):
@@ -222,6 +243,9 @@ def design_of(m, kinds, dicts):
                        dict(name="r", n=0, of=["prim", "R", 1], conns=[["p", ["sig", "bp_x"]], ["n", ["sig", "bp_y"]]])])
     insts = []
     for i, n in enumerate(kinds):
+        if n == -1:
+            continue
+        n = arr_n(n)
         conns = []
         for p in (A, Bp, BP):
             c = m.get((i, p))
@@ -273,6 +297,8 @@ def c_arg(a):
 
 def c_op(op):
     t = op[0]
+    if t == "toarray":               # printed as the call it is specified to be (op[3] = the template's conns then)
+        return c_op(["call", op[2], op[3]])
     if t == "call":
         return f"(Call {cz(op[1])} {clist(op[2], lambda kv: f'({cz(kv[0])}, {c_arg(kv[1])})')})"
     if t == "getref":
@@ -315,10 +341,13 @@ def c_case(job, out):
 # ------------------------------------------------------------------------------------------ jobs
 def mk_job(kinds, user_ops, export=True):
     """user_ops (without explicit getref for argument references) -> job for the driver + the mirror's final mapping."""
-    ops = expand(user_ops)
+    ops = []
     mir = Mirror()
-    for op in ops:
+    for op in expand(user_ops):
+        if op[0] == "toarray":
+            op = op[:3] + [mir.toarray_call(op)[2]]
         mir.apply(op)
+        ops.append(op)
     job = dict(kinds=list(kinds), ports=PORTS, pool={str(k): [v[0], v[1]] for k, v in POOL.items()},
                dicts={str(k): v for k, v in DICTS.items()}, ops=ops, user_ops=user_ops, export=export,
                final=sorted(mir.m.items()))
@@ -357,7 +386,7 @@ def rand_arg(r, kinds, q, newid, kind=None, bad_p=0.0):
         return ["bad", r.randrange(4)]
     k = kind or r.choice(KINDS)
     if k == "ref":
-        js = [j for j in range(len(kinds)) if j != i and kinds[j] == 0] or [j for j in range(len(kinds)) if j != i]
+        js = [j for j in range(len(kinds)) if j != i and kinds[j] == 0] or [j for j in range(len(kinds)) if j != i and kinds[j] >= 0]
         j = r.choice(js)
         p2 = BP if p == BP else r.choice([A, Bp])
         if r.random() < 0.1:
@@ -368,16 +397,16 @@ def rand_arg(r, kinds, q, newid, kind=None, bad_p=0.0):
     return ["obj", r.choice(BY_KIND[k])]
 
 
-def rand_op(r, kinds, m, newid, ports=(A, Bp, BP, ZZ), avoid=(), bad_p=0.03):
+def rand_op(r, kinds, m, newid, ports=(A, Bp, BP, ZZ), avoid=(), bad_p=0.03, insts=None):
     for _ in range(50):
-        i = r.randrange(len(kinds))
+        i = r.choice(insts) if insts else r.randrange(len(kinds))
         p = r.choice(ports)
         q = (i, p)
         if q in avoid:
             continue
         u = r.random()
         if u < 0.10:
-            if p == ZZ:
+            if p == ZZ or kinds[i] == -1:
                 continue
             return ["getref", i, p]
         if u < 0.22:
@@ -391,11 +420,11 @@ def rand_op(r, kinds, m, newid, ports=(A, Bp, BP, ZZ), avoid=(), bad_p=0.03):
     return ["getref", 0, A]
 
 
-def rand_history(r, kinds, n, newid, mir=None, avoid=(), bad_p=0.03):
+def rand_history(r, kinds, n, newid, mir=None, avoid=(), bad_p=0.03, insts=None):
     mir = mir or Mirror()
     ops = []
     for _ in range(n):
-        op = rand_op(r, kinds, mir.m, newid, avoid=avoid, bad_p=bad_p)
+        op = rand_op(r, kinds, mir.m, newid, avoid=avoid, bad_p=bad_p, insts=insts)
         ops.append(op)
         for e in expand([op]):
             mir.apply(e)
@@ -407,6 +436,25 @@ def finish(r, kinds, ops, newid):
     for e in expand(ops):
         mir.apply(e)
     return ops + complete(r, mir, kinds, newid)
+
+
+TKINDS = [0, 0, -1, -2]
+
+
+def toarray_jobs(seed, n):
+    """`2 * template`: the template Instance (never part of the module) is connected first, the array made from it takes
+    over its connections (specified as a call on the new array), the history goes on; the template stays connected to
+    whatever it was connected to — nothing of that may show in the elaborated design."""
+    jobs = []
+    for k in range(n):
+        r = core.rng(seed, "C04", "toarray", k)
+        ids = IdGen()
+        pre, mir = rand_history(r, TKINDS, r.randint(1, 6), ids, insts=[0, 1, 2, 2])
+        ops = pre + [["toarray", 2, 3]]
+        mir.apply(["toarray", 2, 3])
+        post, mir = rand_history(r, TKINDS, r.randint(0, 6), ids, mir=mir, insts=[0, 1, 3, 3, 2])
+        jobs.append(mk_job(TKINDS, finish(r, TKINDS, ops + post, ids)))
+    return jobs
 
 
 def rand_kinds(r):
@@ -436,6 +484,11 @@ def corpus_jobs():
         # reference cycle left after replacing the signal that fed it
         ([0, 0, 0], [["set", 0, A, ["obj", 0]], ["set", 1, A, ["ref", 0, A]], ["set", 0, A, ["ref", 1, A]]]),
     ]
+    # `2 * template` leaves the template in the back-reference set of i0.a; a reference cycle through i0.a then made
+    # ResolvePortRefs pick a name among instances that are not part of the module (fix C04-2)
+    hs.append((TKINDS, [["set", 2, A, ["ref", 0, A]], ["toarray", 2, 3], ["set", 0, A, ["ref", 1, A]], ["set", 1, A, ["ref", 0, A]]]))
+    hs.append((TKINDS, [["set", 2, BP, ["ref", 0, BP]], ["set", 2, A, ["obj", 30]], ["toarray", 2, 3], ["set", 3, A, ["obj", 2]],
+                        ["set", 0, BP, ["ref", 1, BP]], ["set", 1, BP, ["ref", 0, BP]]]))
     for kinds, ops in hs:
         out.append(mk_job(kinds, finish(r, kinds, ops, IdGen())))
     return out
@@ -553,10 +606,12 @@ def measure(jobs, outs, cov):
             prev = cur
         if out.get("pkg") is None and job.get("export"):
             cov["export_failed"] += 1
-        cov["arrays"] += int(any(job["kinds"]))
+        cov["arrays"] += int(any(k != 0 for k in job["kinds"]))
 
 
 def touches(op, q):
+    if op[0] == "toarray":
+        return any((op[2], p) == q for p, _ in op[3])
     if op[0] == "call":
         return any((op[1], p) == q for p, _ in op[2])
     return (op[1], op[2]) == q
@@ -568,7 +623,7 @@ def nontrivial(job):
     for op in job["ops"]:
         before = dict(mir.m)
         ok = mir.apply(op)
-        if ok and op[0] not in ("getref",):
+        if ok and op[0] not in ("getref", "toarray"):
             for q in ([(op[1], p) for p, _ in op[2]] if op[0] == "call" else [(op[1], op[2])]):
                 if q in seen:
                     return True
@@ -648,6 +703,8 @@ def py_repro(job):
         t = op[0]
         if t == "call":
             lines.append(f"i{op[1]}({', '.join(f'{PORTS[p]}={arg(a)}' for p, a in op[2])})")
+        elif t == "toarray":
+            lines.append(f"i{op[2]} = 2 * i{op[1]}; Top.add(i{op[2]})")
         elif t == "getref":
             lines.append(f"i{op[1]}.{PORTS[op[2]]}")
         elif t == "disconnect":
@@ -675,6 +732,7 @@ def run(run, tier, seed, replay=None):
                ("small", small_jobs(quick)),
                ("pairs", pair_jobs(seed, 3 if quick else 24)),
                ("random", random_jobs(seed, 120 if quick else 4000, 12 if quick else 30)),
+               ("toarray", toarray_jobs(seed, 60 if quick else 1500)),
                ("malformed", malformed_jobs(seed, 80 if quick else 1500))]
     results = []
     for name, jobs in streams:
